@@ -79,7 +79,11 @@ def constructs(seed=0):
     c['nested_targs'] = [D.cls('Nt', [D.method(single(T(V, t=[T(V, t=[T('int')])])), 'vv',
                                                [arg(T(V, 1, '&', [T(V, t=[T(V, t=[T('ns::Pose')])])]), 'deep')]),
                                       D.method(single(T('std::map', t=[T('int'), T(V, t=[T('ns::Pose', 0, '*')])])), 'mp',
-                                               [arg(T('std::map', 1, '&', [T('string'), T('double')]), 'm')])]),
+                                               [arg(T('std::map', 1, '&', [T('string'), T('double')]), 'm')]),
+                                      # markers two levels down in argument types
+                                      D.method(single(T('void')), 'deepArg', [arg(T(V, 1, '&', [T(V, t=[T('ns::Pose', 0, '*')])]), 'v'),
+                                                                              arg(T('std::map', t=[T('int'), T(V, t=[T('ns::Rot', 0, '@')])]), 'm')]),
+                                      D.static(single(T('int')), 'deepStatic', [arg(T('std::map', 1, '&', [T('string'), T(V, t=[T('ns::Pose', 0, '*')])]), 'm')])]),
                          D.func(single(T(V, t=[T(V, t=[T('double')])])), 'nestedFn', [arg(T(V, t=[T(V, t=[T('int')])]), 'x')])]
     c['templated_markers'] = [D.cls('Tm', [D.method(single(T('void')), 'raw', [arg(T(V, 0, '@', [T('int')]), 'v'), arg(T(V, 1, '@', [T('double')]), 'cv')]),
                                            D.method(single(T('int')), 'refs', [arg(T(V, 1, '&', [T('ns::Pose')]), 'a'), arg(T('std::map', 0, '@', [T('int'), T('double')]), 'm')], 1),
